@@ -208,6 +208,7 @@ def conc_job(job):
             sref = S[p]
             for it in range(job['iters']):
                 c = rnd.random()
+                if job.get('writes') and c < job['writes']: c = 0.0
                 if c < 0.35:      # write a unique value to a shared object
                     lab = rnd.choice(shared); f = add({'fn': 'C_FindObjectsInit', 's': sref, 'tmpl': x.T({'CKA_LABEL': lab})}, None); g = add({'fn': 'C_FindObjects', 's': sref, 'max': 4}, ('find', lab, None)); add({'fn': 'C_FindObjectsFinal', 's': sref}, None)
                     val = b'p%d:%d' % (p, it); add({'fn': 'C_SetAttributeValue', 's': sref, 'o': '$%d.objs.0' % g, 'tmpl': x.T({'CKA_ID': val})}, ('write', lab, val))
@@ -344,6 +345,8 @@ def run(ctx):
     # the same serialised interleavings on the SQLite back-end (the statement is about processes sharing a token, whatever stores it)
     for i in range(ctx.q(8, 24)): jobs.append(dict(common, kind='serial', backend='db', cfg='asan' if i % 4 == 0 else 'plain', seed=ctx.seed * 1000 + 900 + i, nproc=2 + (i % 2), cases=ctx.q(40, 200), perms=None))
     for i in range(ctx.q(96, 240)): jobs.append(dict(common, kind='conc', cfg='asan' if i % 4 == 0 else 'plain', seed=ctx.seed * 1000 + 500 + i, nproc=2 + (i % 2), iters=ctx.q(30, 50), delay_p=0.3, delay_us=rnd_us(i)))
+    # rare but long stalls (one process parked at ONE file-system operation while another completes whole calls): windows between "looked" and "locked" that uniform short delays never open
+    for i in range(ctx.q(48, 160)): jobs.append(dict(common, kind='conc', cfg='plain', seed=ctx.seed * 1000 + 1500 + i, nproc=2 + (i % 2), iters=ctx.q(30, 50), delay_p=[0.03, 0.06][i % 2], delay_us=[40000, 15000][i % 2], writes=0.6))
     for i in range(ctx.q(2, 8)): jobs.append(dict(common, kind='observer', cfg='asan' if i % 2 else 'plain', seed=ctx.seed * 1000 + 700 + i))
     for i in range(ctx.q(16, 48)): jobs.append(dict(common, kind='duel', cfg='plain', seed=ctx.seed * 1000 + 800 + i, nproc=2 + (i % 2), rounds=ctx.q(30, 60), delay_p=[0.3, 0.6][i % 2], delay_us=[50, 200, 800][i % 3]))
     for part in pmap(dispatch, jobs, max(2, ctx.nproc // 3)): ctx.merge(part)
